@@ -167,7 +167,8 @@ CLAIMED = {
                 "threshold, with/without fallback and every sequence of inner outcomes (ready/pending x Ok/Err, some "
                 "futures dropped), admitted iff Sentinel admits, inner service called once iff admitted, rejected "
                 "requests get the fallback or an error, and the in-flight count returns to its previous value after "
-                "every completed call — response or error. Compared with the real SentinelService over a scripted "
+                "every completed call — response or error; from any start, what is in flight at the end is the start plus one per "
+                "future dropped before completion (C20_inflight_accounting). Compared with the real SentinelService over a scripted "
                 "inner service polled by hand; the same service instance first serves a request for another resource.",
         "design_ref": "DESIGN.md §6 C20",
         "note": "Trusted: Coq kernel + VM (axiom-free); the async state machine generated by rustc and tower's "
@@ -329,7 +330,7 @@ CLAIMED = {
                 "time returns exactly the items of the interval, in order (C19_find_by_time_exact); every write history produces "
                 "such a directory (C19_written_directory_is_good), hence C19_search_after_writes; the line-limited search returns a "
                 "prefix in write order that is not cut short (C19_find_max_lines_prefix); with the last file torn at any byte of "
-                "its log and its index both searches return what the completely written part prescribes plus at most one item "
+                "its log and its index (a complete index entry whose first line is torn included) both searches return what the completely written part prescribes plus at most one item "
                 "read from the torn line (C19_search_by_time_after_crash, C19_search_max_lines_after_crash). Search results "
                 "(by time range and resource; from a time with a line limit), across roll-overs by size and date and after a "
                 "crash cut, are compared with the model on every run and judged by an executable predicate against the "
